@@ -151,11 +151,58 @@ pub fn replay(kind: &str, case: &Value) -> Result<(), String> {
     }
 }
 
+/// Zones sharing the rule days and times but not the offsets (US rule over four offsets), searched in the same year one after the
+/// other on one thread: a memo keyed on too little would serve one zone's instants to the next.
+fn us_family_case(k: usize) -> PCase {
+    use crate::model::{MDay, MLtt, MRule, MTrailer};
+    let off = [-18000, -21600, -25200, -28800][k % 4];
+    let std = MLtt::new(off, false, Some(["EST", "CST", "MST", "PST"][k % 4]));
+    let dst = MLtt::new(off + 3600, true, Some(["EDT", "CDT", "MDT", "PDT"][k % 4]));
+    let rule = MRule { std: std.clone(), dst: dst.clone(), start: MDay::M(3, 2, 0), start_time: 7200, end: MDay::M(11, 1, 0), end_time: 7200 };
+    let z = MZone { trans: vec![], types: vec![std, dst], leaps: vec![], trailer: MTrailer::Alt(rule.clone()) };
+    let y = 2021;
+    let (s, e) = (rule.s(y), rule.e(y));
+    PCase {
+        zone: to_pzone(&z),
+        instants: vec![(s - 1, 0), (s, 0), (e - 1, 0), (e, 0)],
+        civils: vec![(y as i32, 3, 14, 2, 30, 0, 0), (y as i32, 3, 14, 1, 59, 59, 0), (y as i32, 3, 14, 3, 0, 0, 0), (y as i32, 11, 7, 1, 30, 0, 0), (y as i32, 11, 7, 0, 59, 59, 0), (y as i32, 11, 7, 2, 0, 0, 0)],
+        nanos: vec![],
+        buf_len: 3,
+    }
+}
+
+/// A valid zone with one C13-style defect: every configuration must refuse it with the same error.
+fn defective(mut c: PCase, kind: u32) -> PCase {
+    match kind % 6 {
+        0 => {
+            if let Some(l) = c.zone.leaps.first_mut() {
+                l.1 = 27;
+            } else {
+                c.zone.leaps.push((1_483_228_826, 27));
+            }
+        }
+        1 => c.zone.leaps.insert(0, (0, 0)),
+        2 => {
+            if let Some(t) = c.zone.trans.first_mut() {
+                t.1 = usize::MAX;
+            }
+        }
+        3 => {
+            if c.zone.trans.len() >= 2 {
+                c.zone.trans[1].0 = c.zone.trans[0].0;
+            }
+        }
+        4 => c.zone.leaps = vec![(10, 1), (20, 2)],
+        _ => c.zone.leaps = vec![(-1, 1)],
+    }
+    c
+}
+
 pub fn run(ctx: &Ctx) -> Outcome {
     let mut out = Outcome::new(
         "One generated corpus of cases (zone of any shape incl. leap tables, zic-aligned tables and i64-wide times; instants from the unix-time mixture plus the zone's own transitions -1/0; civil times valid / single-defect / shown at the transitions; total-nanosecond counts; buffer lengths 0..3) is run through a probe binary built three times against tz-rs with features {}, {alloc}, {alloc,std} \
          (the probe uses only API that exists without `alloc`: TimeZoneRef, LocalTimeType, rule types, UtcDateTime, DateTime incl. find_n and projection, Display - also with width / precision / fill specs - through a fixed-size fmt::Write buffer) and through the same transcript function inside the std harness; the per-case transcripts must be identical. \
-         A configuration that does not build while the default one does is a violation (replay = build log). Non-trivial: cases whose zone is accepted (lookups, searches and renderings actually executed).",
+         One case in eight carries a zone defect (all configurations must refuse alike); four cases in sixteen are zones sharing rule days/times but not offsets, searched back to back. A configuration that does not build while the default one does is a violation (replay = build log). Non-trivial: cases whose zone is accepted (lookups, searches and renderings actually executed).",
     );
     out.assumptions = vec![
         "no bare-metal target is installed: 'needs no allocator / standard library' is checked as 'compiles as a no_std crate without the alloc feature and gives the same answers on the host'".into(),
@@ -168,7 +215,21 @@ pub fn run(ctx: &Ctx) -> Outcome {
     let mut done = 0usize;
     while done < n {
         let k = batch.min(n - done);
-        let cases: Vec<PCase> = (0..k).map(|_| dr.draw(&strat)).collect();
+        let cases: Vec<PCase> = (0..k)
+            .map(|i| {
+                // every 16 cases: four zones of the same-rule family in a row; one case in eight carries a defect
+                if i % 16 < 4 {
+                    us_family_case(i)
+                } else {
+                    let c = dr.draw(&strat);
+                    if i % 8 == 7 {
+                        defective(c, i as u32 / 8)
+                    } else {
+                        c
+                    }
+                }
+            })
+            .collect();
         if let Err(f) = compare(&cases, &mut st) {
             out.failure = Some(f);
             break;
